@@ -747,7 +747,7 @@ fn recreate_under_a_handle_episode(sess: &mut Session, rng: &mut Rng, rep: &mut 
 /// What the old handle's own calls answer is not judged - its stream is gone - but they
 /// answer (a panic is reported by the caller), and they "change only that stream's bytes
 /// and length": every other object is as before, live and in the stored bytes.
-fn handle_after_removal_episode(sess: &mut Session, rng: &mut Rng, rep: &mut Report) -> Result<(), Fail> {
+pub fn handle_after_removal_episode(sess: &mut Session, rng: &mut Rng, rep: &mut Report) -> Result<(), Fail> {
     use std::io::{Read, Seek, Write};
     let io = |what: &str| {
         let w = what.to_string();
